@@ -146,12 +146,7 @@ def check_value(case) -> list[Fail]:
     if not (tx == ty == tr):
         fails.append(Fail("type", f"value:{v['k']}", f"orig={tx} decoded={ty} ref={tr}"[:300]))
     gen = mk_value(ref.general_value(v))
-    if v["k"] == "function":
-        ok = isinstance(y, val.Function) and [d.op for _, d in y.body.nodes()] == [d.op for _, d in gen.body.nodes()]
-    elif isinstance(y, val.Extension) and isinstance(gen, val.Extension):
-        ok = (y.name, y.typ, list(y.extensions)) == (gen.name, gen.typ, list(gen.extensions)) and ref.strip_nested_hugr(y.val) == gen.val
-    else:
-        ok = y == gen and gen == y
+    ok = val_equal(y, gen)
     if not ok:
         fails.append(Fail("attr-eq", f"value:{v['k']}", f"decoded={y!r} expected={gen!r}"[:300]))
     # sugar values equal their general sum forms, with the same type
@@ -161,6 +156,31 @@ def check_value(case) -> list[Fail]:
         if x != g or g != x or x.type_() != g.type_() or x.type_().type_bound() != g.type_().type_bound():
             fails.append(Fail("sugar-eq", f"value:{v['k']}", f"{x!r} vs {g!r}"[:300]))
     return fails
+
+
+def val_equal(y, gen) -> bool:
+    """Attribute-wise equality of a decoded value with the expected general form.
+    Function bodies are compared op by op (Hugr equality would compare private
+    port-count bookkeeping); extension payloads as JSON."""
+    import hugr.val as val
+
+    if isinstance(gen, val.Function):
+        return isinstance(y, val.Function) and [d.op for _, d in y.body.nodes()] == [d.op for _, d in gen.body.nodes()]
+    if isinstance(gen, val.Extension):
+        return (
+            isinstance(y, val.Extension)
+            and (y.name, y.typ, list(y.extensions)) == (gen.name, gen.typ, list(gen.extensions))
+            and ref.strip_nested_hugr(y.val) == gen.val
+        )
+    if isinstance(gen, val.Sum):
+        return (
+            isinstance(y, val.Sum)
+            and y.tag == gen.tag
+            and y.typ == gen.typ
+            and len(y.vals) == len(gen.vals)
+            and all(val_equal(a, b) for a, b in zip(y.vals, gen.vals))
+        )
+    return y == gen
 
 
 # ------------------------------------------------------------------ ops
@@ -260,7 +280,9 @@ def check_op(case) -> list[Fail]:
             except Exception as e:  # noqa: BLE001
                 fails.append(Fail("attr-eq", f"op:{k}:{a}", f"raises {type(e).__name__}"))
                 continue
-            if a == "val" and op["v"]["k"] == "function":
+            if a == "val":
+                if not val_equal(va, vb):
+                    fails.append(Fail("attr-eq", f"op:{k}:{a}", f"decoded={va!r} expected={vb!r}"[:300]))
                 continue
             if not (va == vb):
                 fails.append(Fail("attr-eq", f"op:{k}:{a}", f"decoded={va!r} expected={vb!r}"[:300]))
